@@ -28,6 +28,7 @@ func runC06(c *Ctx) {
 	c02TeardownOrder(c, c.R.Rule("R5", "K3 (= C02.R7) Source.Teardown: flush → wait → close queue → drain → stop stream → join → plugin teardown", 9))
 	c06R6(c)
 	c06R7(c)
+	c06R13(c)
 	c06R8(c)
 	c06R9(c)
 	c09R2As(c, c.R.Rule("R11", "K13 (= C09.R2) v1 destination acker: surplus acks of a multi-ack response are kept across worker wake-ups (the ack buffer is declared once, outside the signal loop) and acks[0] is indexed only on a non-empty batch — a dropped surplus ack leaves a delivered record open for ever", 1))
@@ -251,6 +252,21 @@ func c06R2(c *Ctx) {
 			}
 			c.R.Check(nOpen > 0, r, "Worker.Open: task Open calls found", c.Pos(fn.Pos()), "ok", "no task.Open call found in Worker.Open", false)
 			c.R.Check(okClose, r, "Worker.Open: the rollback closes the task", c.Pos(fn.Pos()), "task.Close", "the function appended to the rollback does not close the task", true)
+			// F36: SourceTask.Close is a no-op — the source plugin is torn down by the worker (tearDownSource), so the
+			// rollback has to do that too, or a source opened here stays running when a later task / the DLQ fails
+			okTD := false
+			if td := c.Fn(r, pFunnel, "(*Worker).tearDownSource"); td != nil {
+				for _, body := range kit.WithAnon(fn) {
+					for _, a := range kit.CallsTo(body, Set(appendM)) {
+						if mc, ok := a.Common().Args[len(a.Common().Args)-1].(*ssa.MakeClosure); ok {
+							if len(kit.CallsTo(mc.Fn.(*ssa.Function), Set(td))) > 0 {
+								okTD = true
+							}
+						}
+					}
+				}
+			}
+			c.R.Check(okTD, r, "Worker.Open: the rollback tears the opened source down", c.Pos(fn.Pos()), "r.Append(w.tearDownSource)", "Worker.Open's rollback only calls task.Close, and SourceTask.Close does not tear the source down (the worker does, in tearDownSource): when a later task or the DLQ fails to open, the source plugin keeps running and the connector stays marked as running — every later Start fails with 'connector is running' and Persister.Wait never returns", true)
 			dlqOpen := Set(c.Fn(r, pFunnel, "(*DLQ).Open"))
 			c.Dominated(r, "Worker.Open: rollback skipped only after everything opened", asInstrs(kit.CallsTo(fn, Set(skipM))), okGates(kit.CallsTo(fn, dlqOpen), ""), "the DLQ.Open success edge")
 			c.R.Check(len(deferredClosures(fn, Set(execM))) == 1, r, "Worker.Open: rollback executed by defer", c.Pos(fn.Pos()), "defer r.Execute()", "the rollback is not executed by a deferred function", true)
@@ -778,4 +794,67 @@ func c06R12(c *Ctx) {
 		}
 	}
 	c.R.Check(okSame, r, "deliverDeferredAcks: flag and snapshot read in one critical section", c.Pos(fn.Pos()), "same ackMu section", "the closed flag is not read in the ackMu critical section that snapshots the queue: Teardown can enqueue the final position and close the queue between the two reads, and the goroutine exits with that position still queued — it is persisted but never acked to the plugin", true)
+}
+
+// c06R13: F35. WaitPendingWrites (Teardown's "flush, then wait until my final ack was delivered") only ever sees the
+// LATEST flush generation, and any connector can trigger a newer flush while the callbacks of the previous one are
+// still running. A generation therefore reports its callbacks done only after the generation it superseded did:
+// triggerFlush hands the previous generation's callbacksDone to the new one, and the closer receives from it first.
+func c06R13(c *Ctx) {
+	r := c.R.Rule("R13", "K3/K6 callbacks-done is cumulative over flush generations: triggerFlush records the superseded generation's callbacksDone in the new flushState, and the goroutine that closes a generation's callbacksDone first receives from the recorded channel (or finds it nil)", 3)
+	trig := c.SSA(r, pConn, "(*Persister).triggerFlush")
+	flush := c.SSA(r, pConn, "(*Persister).flushNow")
+	cbF := c.Field(r, pConn, "flushState", "callbacksDone")
+	T := c.W.LookupType(pConn, "flushState")
+	if trig == nil || flush == nil || cbF == nil || T == nil {
+		return
+	}
+	// the link field: a field of flushState that triggerFlush assigns a load of (previous).callbacksDone
+	var link *types.Var
+	st := T.Underlying().(*types.Struct)
+	for i := 0; i < st.NumFields(); i++ {
+		f := st.Field(i)
+		if f == cbF {
+			continue
+		}
+		for _, s2 := range kit.FieldStores(trig, f) {
+			if kit.IsFieldLoad(kit.Unwrap(s2.Val), cbF) {
+				link = f
+			}
+		}
+	}
+	if link == nil {
+		c.R.Fail(r, "triggerFlush: the new generation remembers the previous generation's callbacksDone", c.Pos(trig.Pos()), "triggerFlush does not hand the superseded flush generation's callbacksDone to the new one: WaitPendingWrites waits for the callbacks of the latest flush only, so a source whose last position was committed by flush N (callback not yet run) and whose Teardown forces flush N+1 closes its deferred-ack queue and tears the plugin down before the callback of flush N queued the ack — the final ack of a durable position is dropped although the stop 'drained'")
+		return
+	}
+	c.R.Pass(r, "triggerFlush: the new generation remembers the previous generation's callbacksDone", c.Pos(trig.Pos()), "flushState."+link.Name(), true)
+	n := 0
+	for _, lit := range kit.WithAnon(flush) {
+		for _, b := range lit.Blocks {
+			for _, in := range b.Instrs {
+				call, ok := in.(*ssa.Call)
+				if !ok {
+					continue
+				}
+				bi, ok := call.Call.Value.(*ssa.Builtin)
+				if !ok || bi.Name() != "close" || !kit.IsFieldLoad(call.Call.Args[0], cbF) {
+					continue
+				}
+				n++
+				g := kit.NewGates()
+				for _, b2 := range lit.Blocks {
+					for _, in2 := range b2.Instrs {
+						if u, ok := in2.(*ssa.UnOp); ok && u.Op == token.ARROW && kit.IsFieldLoad(u.X, link) {
+							g.AddInstr(u, "<-st."+link.Name())
+						}
+					}
+				}
+				for _, l := range kit.FieldLoads(lit, link) {
+					g.AddEdges(kit.NilEdges(l, true), link.Name()+" == nil")
+				}
+				c.Dominated(r, "flushNow: callbacksDone closed only after the previous generation's", []ssa.Instruction{call}, g, "a receive from st."+link.Name()+" (or its nil edge)")
+			}
+		}
+	}
+	c.R.Check(n >= 1, r, "flushNow: close(callbacksDone)", c.Pos(flush.Pos()), "found", "no close(st.callbacksDone) found in flushNow or its closures", true)
 }
